@@ -6,7 +6,7 @@ from func_adl.ast.function_simplifier import simplify_chained_calls
 from vlib.sh.common import HI, LO, TWIN, L, attr, call, const, dump, lam, mcall, name, nt, pick, sub, tick
 
 PACKS = 8      # producer kinds
-CONS = 8       # consumer kinds
+CONS = 12      # consumer kinds
 NCODES = PACKS * CONS
 NAMES = [("x", "y", "z"), ("e", "e", "e"), ("x", "x", "y")]
 
@@ -70,6 +70,38 @@ def build(pk, cons, arity, idx, k0, k1, form, ns):
             return None
         inner = W(S(proj(b), lam("j", attr("j", "pt"))), lam("p", ast.Compare(other(b), [ast.Gt()], [const(30)])))
         return S(s1, lam(b, call("Count", inner)))
+    if cons == 9:     # a pass-through stage Select(x -> x) between producer and consumer
+        return S(S(s1, lam(b, name(b))), lam(c, scalar(c)))
+    if cons == 10:    # First(...) of a SelectMany whose lambda packages per inner element, projected after the First
+        if pk == 0:
+            per, pj = ast.Tuple([attr("t", "pt"), attr("j", "eta")], L), (lambda x: sub(x, idx % 2))
+        elif pk == 2:
+            per, pj = ast.Dict([const(k0), const(k1)], [attr("t", "pt"), attr("j", "eta")]), (lambda x: sub(x, k0) if idx % 2 == 0 else ast.Attribute(x, k1, L))
+        else:
+            return None
+        many = M(attr(a, "js"), lam("j", S(attr("j", "trk"), lam("t", per))))
+        if idx == 2:
+            many = W(many, lam("w", ast.Compare(pj(name("w")), [ast.Gt()], [const(1)])))
+        return S(name("ds"), lam(a, pj(call("First", many) if form == 0 else mcall(many, "First"))))
+    if cons == 11:    # a packaged First(...) whose fields are read by attribute in a later stage: d.lead.pt
+        if pk not in (2, 6):
+            return None
+        recs = S(attr(a, "js"), lam("j", ast.Dict([const(k0), const(k1)], [attr("j", "pt"), attr("j", "eta")])))      # a sequence of records
+        s0 = S(name("ds"), lam(a, ast.Dict([const(k0), const(k1)], [call("First", recs) if form == 0 else mcall(recs, "First"), attr(a, "f1")])))
+        lead = (lambda w: ast.Attribute(name(w), k0, L)) if idx % 2 == 0 else (lambda w: sub(name(w), k0))
+        fld = (lambda x: ast.Attribute(x, k1, L)) if idx < 2 else (lambda x: sub(x, k1))
+        return S(s0, lam(b, ast.BinOp(fld(lead(b)), ast.Add(), ast.Attribute(name(b), k1, L))))
+    if cons == 8:     # two levels of SelectMany, the inner one packaging per element; a Select takes the packages apart
+        if pk == 0:
+            per = ast.Tuple([name("t"), attr("j", "f1")], L)
+            p0, p1 = (lambda w: sub(name(w), 0)), (lambda w: sub(name(w), 1))
+        elif pk == 2:
+            per = ast.Dict([const(k0), const(k1)], [name("t"), attr("j", "f1")])
+            p0, p1 = (lambda w: ast.Attribute(name(w), k0, L)), (lambda w: sub(name(w), k1))
+        else:
+            return None
+        m2 = M(M(name("ds"), lam(a, attr(a, "js"))), lam("j", S(attr("j", "trk"), lam("t", per))))
+        return S(m2, lam(b, ast.BinOp(attr(p0(b), "pt"), ast.Add(), p1(b))))
     # cons 7: SelectMany producing one package per inner element, taken apart by a second SelectMany
     if pk == 0:
         per = ast.Tuple([name("j"), attr(a, "f1")], L)
@@ -98,8 +130,8 @@ def residue(r, cons):
 
 def c14(code: int, arity: int, idx: int, k0: str, k1: str, form: int, ns: int) -> str:
     """
-    pre: LO <= code < HI and 0 <= code < 64
-    pre: 1 <= arity <= 3 and 0 <= idx <= 2 and 0 <= form <= 0 and 0 <= ns <= 2
+    pre: LO <= code < HI and 0 <= code < 96
+    pre: 1 <= arity <= 3 and 0 <= idx <= 2 and 0 <= form <= 0 and 1 <= ns <= 2
     pre: len(k0) <= 2 and len(k1) <= 2 and k0 != k1
     post: (_ == '') != TWIN
     """
@@ -108,7 +140,7 @@ def c14(code: int, arity: int, idx: int, k0: str, k1: str, form: int, ns: int) -
 
 def c14t(code: int, arity: int, idx: int, k0: str, k1: str, form: int, ns: int) -> str:
     """
-    pre: LO <= code < HI and 0 <= code < 64
+    pre: LO <= code < HI and 0 <= code < 96
     pre: 1 <= arity <= 3 and 0 <= idx <= 2 and 0 <= form <= 1 and 0 <= ns <= 2
     pre: len(k0) <= 3 and len(k1) <= 3 and k0 != k1
     post: (_ == '') != TWIN
@@ -119,17 +151,19 @@ def c14t(code: int, arity: int, idx: int, k0: str, k1: str, form: int, ns: int) 
 def body(code, arity, idx, k0, k1, form, ns):
     code = pick(code, max(LO, 0), min(HI, NCODES))
     pk, cons = code // CONS, code % CONS
-    arity, idx, form, ns = pick(arity, 1, 4), pick(idx, 0, 3), pick(form, 0, 2), pick(ns, 0, 3)
+    # combinations that add nothing are kept out by symbolic range checks BEFORE the case splits, so no path is spent on them
+    if (pk == 7 and cons in (2, 3, 5)) or (cons == 6 and pk not in (5, 6, 7)) or (cons in (7, 8, 10) and pk not in (0, 2)) or (cons == 11 and pk not in (2, 6)):
+        return ""
     if pk in (0, 1):
         if idx >= arity:
             return ""
-    else:
-        if arity != 3:
-            return ""       # arity only varies for flat tuples / lists
-    if (pk == 7 and cons in (2, 3, 5)) or (cons == 6 and pk not in (5, 6, 7)) or (cons == 7 and pk not in (0, 2)):
-        return ""       # combinations that add nothing (kept out to bound the run time)
-    if cons == 7 and (arity != 3 or idx != 0):
+    elif arity != 3:
+        return ""       # arity only varies for flat tuples / lists
+    if cons in (7, 8) and (arity != 3 or idx != 0):
         return ""
+    if cons in (10, 11) and arity != 3:
+        return ""
+    arity, idx, form, ns = pick(arity, 1, 4), pick(idx, 0, 3), pick(form, 0, 2), pick(ns, 0, 3)
     q = build(pk, cons, arity, idx, k0, k1, form, ns)
     if q is None:
         return ""
